@@ -229,7 +229,7 @@ def run(ctx):
             elif norm != exp:
                 extra = [e for e in norm if e not in exp]
                 if any(canary in str(a) or "evil.dtd" in str(a) for _, a in norm):
-                    bad = "a DTD / external entity declared in the package was fetched: %s" % extra[:2]
+                    bad = "a file that is only NAMED inside the package (DTD, external entity, or a path-like style map) was opened: %s" % extra[:2]
                 else:
                     bad = "external accesses %s, expected exactly the linked images %s" % (norm[:4], exp[:4])
             elif not named and any("://" not in t for t in reached) and conv != "no_open":
